@@ -7,6 +7,9 @@
 import Cachelito.Monitors
 import Cachelito.MacroDriver
 import Cachelito.MemDriver
+import Cachelito.ConcDriver
+import Cachelito.KeysDriver
+import Cachelito.AttrsDriver
 
 open Cachelito Cachelito.Driver Cachelito.Monitors
 
@@ -105,6 +108,9 @@ partial def main (args : List String) : IO UInt32 := do
     IO.println s!"SUMMARY lines={ctx.lines} ok={ctx.ok} diffs={ctx.diffs} bad={ctx.bad} model_runs={ctx.tries} episodes={ctx.episode}"
     pure (if ctx.diffs = 0 && ctx.bad = 0 then 0 else 1)
   | ["mem"] => simpleMode stdin Cachelito.MemDriver.handleMemLine
+  | ["conc"] => simpleMode stdin Cachelito.ConcDriver.handleConcLine
+  | ["keys"] => simpleMode stdin Cachelito.KeysDriver.handleKeysLine
+  | ["attrs"] => simpleMode stdin Cachelito.AttrsDriver.handleAttrsLine
   | _ =>
-    IO.eprintln "usage: driver core|macro|mem < lines"
+    IO.eprintln "usage: driver core|macro|mem|conc|keys|attrs < lines"
     pure 2
